@@ -65,7 +65,7 @@ pub fn gid_map(font: &Font) -> Result<BTreeMap<String, u16>, String> {
 
 pub fn check_outlines(ctx: &Ctx, genome: &[u16]) -> CaseReport {
     let mut rep = CaseReport::default();
-    let f = SynthFont::decode(genome, &Profile::outlines());
+    let f = SynthFont::decode(genome, &Profile { point_axis: true, ..Profile::outlines() });
     rep.key = f.hash();
     classify(&mut rep, &f);
     rep.sample = Some(describe(&f));
@@ -78,7 +78,7 @@ pub fn check_outlines(ctx: &Ctx, genome: &[u16]) -> CaseReport {
     let f = &b.font;
     let font = match Font::new(&b.bytes) { Ok(x) => x, Err(e) => { rep.fail("output-unparseable", e); attach_source(&mut rep, &b); return rep; } };
     let gids = match gid_map(&font) { Ok(m) => m, Err(e) => { rep.fail("post-names-unreadable", e); attach_source(&mut rep, &b); return rep; } };
-    let n_axes = f.axes.len();
+    let n_axes = f.var_axes().len();
     if font.axes().len() != n_axes { rep.fail("fvar-axis-count", format!("{} vs {}", font.axes().len(), n_axes)); }
     let mut any_nontrivial = false;
     for gl in &f.glyphs {
@@ -88,7 +88,7 @@ pub fn check_outlines(ctx: &Ctx, genome: &[u16]) -> CaseReport {
         let is_simple_in_font = matches!(raw, RawGlyph::Simple { .. } | RawGlyph::Empty);
         let depth = f.max_depth(&gl.name);
         for (&si, _src) in &gl.sources {
-            let coords: Vec<f64> = f.sources[si].norm.iter().map(|v| f2(*v)).collect();
+            let coords: Vec<f64> = f.font_coords(&f.sources[si].norm);
             let is_default = si == 0;
             rep.evals += 1;
             let Some(expected) = f.resolved(&gl.name, si, &IDENT, 0) else { rep.class("skipped-component-without-source-here"); continue; };
@@ -174,7 +174,7 @@ fn table_value(font: &Font, which: &str) -> Option<f64> {
 
 pub fn check_metrics(ctx: &Ctx, genome: &[u16]) -> CaseReport {
     let mut rep = CaseReport::default();
-    let f = SynthFont::decode(genome, &Profile::outlines());
+    let f = SynthFont::decode(genome, &Profile { point_axis: true, ..Profile::outlines() });
     rep.key = f.hash();
     classify(&mut rep, &f);
     rep.sample = Some(describe(&f));
@@ -196,7 +196,7 @@ pub fn check_metrics(ctx: &Ctx, genome: &[u16]) -> CaseReport {
         if adv0 as f64 != ot_round(a_default) { rep.fail("default-advance-not-exact", format!("{}: hmtx {adv0} vs source {a_default}", gl.name)); }
         for (&si, src) in &gl.sources {
             // glyph-only (layer) sources carry an advance too
-            let coords: Vec<f64> = f.sources[si].norm.iter().map(|v| f2(*v)).collect();
+            let coords: Vec<f64> = f.font_coords(&f.sources[si].norm);
             rep.evals += 1;
             if src.advance != a_default { varies = true; }
             let want = ot_round(src.advance);
@@ -221,6 +221,20 @@ pub fn check_metrics(ctx: &Ctx, genome: &[u16]) -> CaseReport {
             }
         }
     }
+    // HVAR and the gvar phantom points must agree at every master location, also where the glyph has no source of its own
+    for gl in f.glyphs.iter().filter(|g| g.export) {
+        let Some(&gid) = gids.get(&gl.name) else { continue };
+        let Ok(raw) = font.glyph(gid) else { continue };
+        for (si, s) in f.full_sources() {
+            if gl.sources.contains_key(&si) { continue; }
+            let coords = f.font_coords(&s.norm);
+            rep.evals += 1;
+            if let (Ok(Some(hv)), Ok((d, _))) = (font.hvar_advance_delta(gid, &coords), font.gvar_deltas(gid, &coords, &raw)) {
+                let n = d.len(); let px = d[n - 3].0 - d[n - 4].0;
+                if (hv - px).abs() > 1.0 + 1e-6 { rep.fail("hvar-disagrees-with-gvar-phantom-points", format!("{} at master {si} {:?} (glyph has no source there): HVAR delta {hv:.3} vs gvar phantom delta {px:.3}", gl.name, coords)); }
+            }
+        }
+    }
     // global metrics through MVAR (class A: the metric is explicit in every master)
     let class_a = f.sources[0].info.metrics.contains_key("openTypeOS2TypoAscender");
     if class_a { rep.class("metrics-explicit-in-all-masters"); }
@@ -234,7 +248,7 @@ pub fn check_metrics(ctx: &Ctx, genome: &[u16]) -> CaseReport {
         for (si, s) in f.full_sources() {
             let Some(want) = val(s) else { continue };
             if want != d0 { varies = true; }
-            let coords: Vec<f64> = s.norm.iter().map(|v| f2(*v)).collect();
+            let coords: Vec<f64> = f.font_coords(&s.norm);
             rep.evals += 1;
             match font.mvar_delta(tag, &coords) {
                 Ok(dv) => { let got = t0 + dv.unwrap_or(0.0); if (got - ot_round(want)).abs() > 1.0 + 1e-6 { rep.fail("global-metric-at-master", format!("{key} ({}) source {si} at {:?}: table+MVAR {got:.3} vs source {want}", String::from_utf8_lossy(*tag), coords)); } }
